@@ -386,7 +386,7 @@ void run_case(const uint8_t *data, size_t size, CaseCtx &ctx) {
           analyzer_t a(ref, top.make_top(), nullptr, fpar);
           typename analyzer_t::assumption_map_t assumptions;
           g_step_count = 0;
-          g_step_budget = 2000000;
+          g_step_budget = 400000;
           a.run(cur.entry(), top.make_top(), assumptions);
           g_step_budget = ~0UL;
           typename checker_t::prop_checker_ptr prop(new assert_checker_t(0));
